@@ -1,6 +1,26 @@
 import UtilModel.Core.LTSHash
-import UtilModel.Once.Monitors
-import UtilModel.Memo.Monitors
+import UtilModel.Once.Sim
+import UtilModel.Memo.Props
 open UtilModel
 #print axioms UtilModel.acceptsH_sound
+#print axioms UtilModel.accepted_satisfies
 #print axioms UtilModel.monitor_of_simulation
+#print axioms Once.reachable_inv
+#print axioms Once.once_not_concurrent
+#print axioms Once.success_is_last
+#print axioms Once.success_no_new_call
+#print axioms Once.success_join
+#print axioms Once.success_value
+#print axioms Once.error_cleared_before_published
+#print axioms Once.error_retried
+#print axioms Once.cancelled_returns
+#print axioms Once.canceled_only_if_cancelled
+#print axioms Once.waiting_instance_in_progress
+#print axioms Once.canceled_result_retried
+#print axioms Once.quiescent_pending
+#print axioms Once.C16_obs_once
+#print axioms Memo.reachable_inv
+#print axioms Memo.memo_exactly_once
+#print axioms Memo.memo_all_same
+#print axioms Memo.waiting_enabled
+#print axioms Memo.C16_obs_memo
